@@ -34,7 +34,7 @@ EUp(c) ==
   /\ sentUp' = sentUp + Sz(c)
   /\ dials' = IF dials = <<>> /\ reach = "ok" THEN <<want>> ELSE dials
   /\ gotUp' = IF reach = "ok" /\ tgtClosed \in {"no", "fin"} /\ ~fault THEN sentUp' ELSE gotUp
-  /\ cleanTgt' = (cleanTgt /\ tgtClosed # "close")
+  /\ cleanTgt' = (cleanTgt /\ tgtClosed \notin {"close", "rst"})
   /\ script' = Append(script, [op |-> "up", size |-> c])
   /\ UNCHANGED <<phase, want, reach, sentDown, gotDown, appClosed, tgtClosed, cleanApp, appSaw, tgtSaw, fault, lapsed, done, okAll>>
 
